@@ -1,12 +1,16 @@
 #!/bin/bash
-# Build the framework from files on disk only (offline): Lean library + theorem modules + driver, Go harness.
+# Build the framework from files on disk only (offline): Go harness, regenerated tables, Lean library +
+# theorem modules + driver.
 set -e
 cd "$(dirname "$0")"
 export GOFLAGS=-mod=mod GOPROXY=off GOSUMDB=off GOTOOLCHAIN=local CGO_ENABLED=0
-(cd lean && lake build JSight Driver jsight-model 2>&1 | grep -E "error|✖|Build completed" || true)
-test -x lean/.lake/build/bin/jsight-model
-mkdir -p harness/bin evidence replays
+mkdir -p harness/bin evidence replays lean/JSight/Generated
 cp /repo/go.sum harness/go.sum 2>/dev/null || true
 (cd harness && go build -tags verif -o bin/vh ./cmd/vh)
 (cd harness && CGO_ENABLED=1 go build -race -tags verif -o bin/vhrace ./cmd/vhrace)
+# T-gen tables the Lean tie modules import (rewritten again by every check)
+./harness/bin/vh tgen-errors "$PWD/lean/JSight/Generated/ErrorTable.lean" >/dev/null
+./harness/bin/vh tgen-cmap "$PWD/lean/JSight/Generated/CMapUses.lean" >/dev/null
+(cd lean && lake build JSight Driver jsight-model 2>&1 | grep -E "error|✖|Build completed" || true)
+test -x lean/.lake/build/bin/jsight-model
 echo setup-ok
